@@ -817,6 +817,7 @@ impl Ctx {
                 let es: Vec<Entity> = hs.iter().map(|h| self.resolve(h)).collect();
                 let batch = build_column_batch(decl, rows);
                 let world = self.world(*w);
+                // (a repeated id is out of contract: hecs refuses by panicking, which ends the history)
                 world.spawn_column_batch_at(&es, batch);
                 self.push_handles(&es);
                 (
@@ -1486,6 +1487,7 @@ impl Gen {
             Op::Exchange { w, h, ks, k, b } => Op::Exchange { w, h: bind(&h), ks, k, b },
             Op::Despawn { w, h } => Op::Despawn { w, h: bind(&h) },
             Op::SpawnAt { w, h, k, b } => Op::SpawnAt { w, h: bind(&h), k, b },
+            Op::SpawnCbAt { w, hs, decl, rows } => Op::SpawnCbAt { w, hs: hs.iter().map(|h| bind(h)).collect(), decl, rows },
             Op::Take { w, h, into } => Op::Take { w, h: bind(&h), into },
             Op::Query { w, q, path, h, n, es } => Op::Query { w, q, path, h: bind(&h), n, es },
             Op::Cont(crate::containers::COp::QInsert { q, h, k, bundle }) => {
@@ -1585,6 +1587,59 @@ impl Gen {
         let (k5, b5) = self.random_bundle();
         self.plan.push_back(Op::Exchange { w, h: last(1), ks: 1 + self.rng.below(4), k: k5, b: b5 });
         self.plan.push_back(Op::Despawn { w, h: last(1) });
+        self.plan.push_back(Op::Obs { w });
+    }
+
+    /// scenario (out-of-contract calls that must be refused before anything is touched): a bundle naming a
+    /// type twice inserted into an entity that already has that type; a column batch aimed twice at one live
+    /// id that has other rows behind it in its archetype
+    fn plan_refusals(&mut self, w: usize) {
+        if self.srng.chance(50) {
+            let b = self.bundle_for_types(&bundle_types(10));
+            self.plan.push_back(Op::Spawn { w, k: Some(10), b });
+            let k = NBUNDLES + self.srng.below(NBUNDLES_ALL - NBUNDLES);
+            let b = self.bundle_for_types(&bundle_types(k));
+            self.plan.push_back(Op::Insert { w, h: Self::LAST, k: Some(k), b });
+        } else {
+            let k = *self.rng.pick(&[1usize, 2, 10, 3]).unwrap();
+            for _ in 0..4 {
+                let b = self.bundle_for_types(&bundle_types(k));
+                self.plan.push_back(Op::Spawn { w, k: Some(k), b });
+            }
+            let decl = self.random_types(2);
+            let rows = self.batch_rows(&decl, 2);
+            let victim = HRef::Tab(usize::MAX, 2 + self.srng.below(2));
+            self.plan.push_back(Op::SpawnCbAt { w, hs: vec![victim.clone(), victim], decl, rows });
+            for _ in 0..2 {
+                let (k, b) = self.random_bundle();
+                self.plan.push_back(Op::Spawn { w, k, b });
+            }
+        }
+        self.plan.push_back(Op::Obs { w });
+    }
+
+    /// scenario: a derived bundle with a type parameter is used with two different type arguments (spawn,
+    /// batch spawn, reserve), next to the tuples with the same component sets
+    fn plan_generic_bundle(&mut self, w: usize) {
+        let mut ks = vec![41usize, 42, 41, 42];
+        if self.srng.chance(50) {
+            ks.reverse();
+        }
+        for (i, k) in ks.into_iter().enumerate() {
+            let b = self.bundle_for_types(&bundle_types(k));
+            match i {
+                2 => {
+                    let ts = bundle_types(k);
+                    let rows = (0..2).map(|_| self.bundle_for_types(&ts)).collect();
+                    self.plan.push_back(Op::SpawnBatch { w, k, via: "batch".into(), rows });
+                }
+                3 => {
+                    self.plan.push_back(Op::Reserve { w, k });
+                    self.plan.push_back(Op::Spawn { w, k: Some(k), b });
+                }
+                _ => self.plan.push_back(Op::Spawn { w, k: Some(k), b }),
+            }
+        }
         self.plan.push_back(Op::Obs { w });
     }
 
@@ -2025,6 +2080,19 @@ impl Gen {
         }
         if self.profile == Profile::Reserve && self.rng.chance(1) && self.rng.chance(35) {
             self.plan_id_limit(ctx, w);
+            if let Some(op) = self.plan.pop_front() {
+                return Self::bind_last(op, ctx);
+            }
+        }
+        // (rare, and decided on the second stream: most histories stay exactly as they were before this scenario existed)
+        if matches!(self.profile, Profile::Mixed | Profile::Containers) && self.srng.below(1000) < 3 {
+            self.plan_generic_bundle(w);
+            if let Some(op) = self.plan.pop_front() {
+                return Self::bind_last(op, ctx);
+            }
+        }
+        if matches!(self.profile, Profile::Mixed | Profile::Malformed | Profile::Batch) && self.srng.below(1000) < 3 {
+            self.plan_refusals(w);
             if let Some(op) = self.plan.pop_front() {
                 return Self::bind_last(op, ctx);
             }
